@@ -566,14 +566,18 @@ func c15RunDisk(c *core.C, op c15Op, si int, srcMap map[string][]byte) {
 				verifhook.Reset()
 				verifhook.Arm(point, verifhook.Action{Nth: k, Fault: true, Short: short})
 				dst, dir := mk()
-				// pre-existing old content at every destination path the op will touch
+				// pre-existing old content at every destination path the op will touch (every other
+				// position: no previous object, so that "leaves no new object behind" is observable)
 				var expect map[string][]byte
 				if op.expect != nil {
 					expect = op.expect(srcMap)
 				}
-				for p := range expect {
-					os.MkdirAll(filepath.Dir(filepath.Join(dir, p)), 0o755)
-					os.WriteFile(filepath.Join(dir, p), []byte("OLD"), 0o644)
+				withOld := k%2 == 1
+				if withOld {
+					for p := range expect {
+						os.MkdirAll(filepath.Dir(filepath.Join(dir, p)), 0o755)
+						os.WriteFile(filepath.Join(dir, p), []byte("OLD"), 0o644)
+					}
 				}
 				err := op.run(ctx, src, srcMap, dst, nil)
 				fired := verifhook.Fired()[point]
@@ -597,8 +601,16 @@ func c15RunDisk(c *core.C, op c15Op, si int, srcMap map[string][]byte) {
 					// all-or-nothing: every destination path holds OLD or the complete new content; no temp residue
 					for p, want := range expect {
 						data, rerr := os.ReadFile(filepath.Join(dir, p))
-						if rerr != nil || !(bytes.Equal(data, []byte("OLD")) || bytes.Equal(data, want)) {
-							c.Violation("atomic-put-partial", key(label), fmt.Sprintf("after a failed atomic %s, %s holds %d bytes (neither old nor complete new, err=%v)", op.name, p, len(data), rerr), nil)
+						absent := rerr != nil && os.IsNotExist(rerr)
+						isOld := rerr == nil && bytes.Equal(data, []byte("OLD"))
+						isNew := rerr == nil && bytes.Equal(data, want)
+						okState := isNew || (withOld && isOld) || (!withOld && absent)
+						if !okState {
+							c.Violation("atomic-put-partial", key(label), fmt.Sprintf("after a failed atomic %s, %s holds %d bytes (neither previous nor complete new; had previous=%v, err=%v)", op.name, p, len(data), withOld, rerr), nil)
+						}
+						// a single-object atomic put that reported failure must have left the previous state
+						if len(expect) == 1 && fired > 0 && isNew && !(withOld && bytes.Equal(want, []byte("OLD"))) {
+							c.Violation("failed-atomic-put-published", key(label), fmt.Sprintf("atomic %s returned an error but the new object %s was published", op.name, p), nil)
 						}
 						c.Count("atomic_old_or_new_checked", 1)
 					}
